@@ -31,6 +31,7 @@ type op struct {
 	kind    string
 	enabled func() bool
 	idleOK  bool // a daemon may legitimately stay parked here forever
+	low     bool // low priority: runnable only while no other (normal) thread is
 	pcs     [6]uintptr
 	npcs    int
 }
@@ -246,17 +247,28 @@ func (c *Controller) choice(kind string, n int, mode uint8) int {
 }
 
 func (c *Controller) enabledThreads(self *thread) []*thread {
-	var en []*thread
+	var en, low []*thread
 	if self != nil && !self.finished && self.pending != nil && self.pending.enabled() {
-		en = append(en, self)
+		if self.pending.low {
+			low = append(low, self)
+		} else {
+			en = append(en, self)
+		}
 	}
 	for _, t := range c.threads {
 		if t == self || t.finished || t.pending == nil {
 			continue
 		}
 		if t.pending.enabled() {
-			en = append(en, t)
+			if t.pending.low {
+				low = append(low, t)
+			} else {
+				en = append(en, t)
+			}
 		}
+	}
+	if len(en) == 0 {
+		return low // only slow operations are left: they proceed (self first, then ascending ids)
 	}
 	return en
 }
@@ -444,6 +456,15 @@ var always = func() bool { return true }
 func Yield(kind string) {
 	if c := active.Load(); c != nil {
 		c.yield(&op{kind: kind, enabled: always})
+	}
+}
+
+// YieldLow is a scheduling point of a slow operation: the caller continues only once no other thread can
+// run (every other thread finished, blocked, or is itself in a slow operation). Letting everybody else
+// proceed first costs no deviation.
+func YieldLow(kind string) {
+	if c := active.Load(); c != nil {
+		c.yield(&op{kind: kind, enabled: always, low: true})
 	}
 }
 
